@@ -29,13 +29,15 @@ func runC06(p *core.Prog, r *core.Report) {
 	c06R1(p, r)
 	c06R2(p, r)
 	c06R3(p, r)
-	c06R4(p, r)
+	c06R4(p, r, "C06.R4")
 	r.Rule("C06.R5", "every access to the registry scheme's manifest/referrer caches keys by the SetDigest-normalised reference, so a delete evicts exactly what a put or get stored", 8)
 	cacheKeyRule(p, r, "C06.R5", regCacheCalls(p))
 	c06R6(p, r, "C06.R6")
 	staleIndexRule(p, r, "C06.R7")
 	c06R8(p, r)
 	c06R9(p, r, "C06.R9")
+	// the collection that Close runs does not interleave with a push of the same client: the sweep holds the layout mutex (shared with C08.R2)
+	c08R2(p, r, "C06.R10")
 }
 
 // c06R9: an entry without a name is not the entry of the empty tag. Where an entry's ref.name
@@ -610,8 +612,7 @@ func c06R3(p *core.Prog, r *core.Report) {
 // ---------------------------------------------------------------------------------------------
 // R4 tag listing loop
 
-func c06R4(p *core.Prog, r *core.Report) {
-	const rule = "C06.R4"
+func c06R4(p *core.Prog, r *core.Report, rule string) {
 	r.Rule(rule, "the registry tag listing loop leaves only on the limit test, on an error, or when the server sent no next link; every fetched page is appended", 2)
 	fn := p.Method("scheme/reg", "Reg", "TagList")
 	if fn == nil {
